@@ -31,10 +31,11 @@ def configs():
         ([[A], [rel_of(0, 0)], [A, R]], 1, 0),          # guard acquired on thread 0, released on thread 1
         ([[A, R], [A, R], [A, R]], 1, 0),
         ([[A, R, A, R], [A, R]], 1, 0),
+        ([[R, R], [A], [A]], 0, 0),                     # two waiters, two releases in a row
     ]
     thorough = quick + [
         ([[A, R], [A, R], [A, R]], 2, 1), ([[A, R], [A, R], [A, R]], 1, 2),
-        ([[A, R, A, R], [A, R, A, R]], 1, 1), ([[R, R], [A], [A]], 0, 0),
+        ([[A, R, A, R], [A, R, A, R]], 1, 1), ([[R], [R], [A], [A]], 0, 0),
         ([[A], [rel_of(0, 0), A, R], [A, R]], 1, 1),
         ([[A, R], [A, R], [A, R], [A, R]], 2, 0),
         ([[A, R, A, R, A, R], [A, R, A, R, A, R]], 1, 0),
